@@ -609,6 +609,40 @@ theorem gradient_invariant_partial (e : Env α) (s : St α) (i j : Nat) (hij : i
     (hg : s.grad.length = s.alpha.length) (h : GradOK e s) : GradOK e (update e s i j) :=
   update_gradOK e s i j hij hi hj hn hg h
 
+/-- **the gradient invariant survives every run of SMO steps on the active prefix** (any number of
+steps, any distinct working pairs below `nactive`, any clipping case): the multi-step lift of
+`gradient_invariant_partial`.  Still PARTIAL: no `swap` / `do_shrinking` / `reconstruct_gradient` between the
+steps (i.e. the loop with shrinking off, or between two shrinking events). -/
+theorem gradient_invariant_steps_partial (e : Env α) (steps : List (Nat × Nat)) (s : St α)
+    (hv : ActiveSteps s steps) (hn : s.nactive ≤ s.alpha.length) (hg : s.grad.length = s.alpha.length)
+    (h : GradOK e s) : GradOK e (steps.foldl (fun s st => update e s st.1 st.2) s) :=
+  updates_gradOK e steps s hv hn hg h
+
+/-- **from the zero start (`SolverState::new` as C-classification and epsilon-regression call it) the
+solver holds the true gradient `p + Qα` after any sequence of working pairs** — `SolverState::new`
+establishes the invariant (no variable off its lower bound, so the gradient is the linear term) and
+every step keeps it.  No hypothesis on the kernel, labels, bounds or step count.  PARTIAL as above
+(shrinking off); the nu-variants start off zero and are not covered by the start lemma. -/
+theorem gradient_true_from_zero_start_partial (e : Env α) (a0 p0 b0 : List α) (y0 : List Bool)
+    (hz : ∀ k, gf a0 k = 0) (hp : p0.length = a0.length) (steps : List (Nat × Nat))
+    (hv : ValidSteps a0.length steps) :
+    GradOK e (steps.foldl (fun s st => update e s st.1 st.2) (init e a0 p0 b0 y0)) := by
+  obtain ⟨c1, c2, _, c4⟩ := init_zero_core e a0 p0 b0 y0 hz
+  apply updates_gradOK
+  · intro st hst; rw [c4]; exact hv st hst
+  · rw [c4, c1]
+  · rw [c2, c1]; exact hp
+  · exact init_zero_gradOK e a0 p0 b0 y0 hz
+
+/-- non-vacuity: a zero start of two variables with a valid two-step working-pair sequence -/
+example : (∀ k, gf ([0, 0] : List ℚ) k = 0) ∧ ValidSteps ([0, 0] : List ℚ).length [(0, 1), (1, 0)] := by
+  refine ⟨fun k => ?_, ?_⟩
+  · unfold gf
+    rcases k with _ | _ | k <;> simp
+  · intro st hst
+    simp only [List.mem_cons, List.mem_nil_iff, or_false] at hst
+    rcases hst with h | h <;> subst h <;> decide
+
 /-- the two-sample optimum holds the exact gradient: `Q = [[1,1],[1,1]]`, `p + Qα = -1 + 1/2 + 1/2 = 0` -/
 example : GradOK kEnv kSt := by
   intro k hk
